@@ -1,5 +1,6 @@
 import AdaVerif.Lemmas.Scheme
 import AdaVerif.Spec.Setters
+import AdaVerif.Lemmas.PathMain
 /-
 C01 — Parsing conforms to the WHATWG URL Standard for every input and base.
 
@@ -9,9 +10,45 @@ compared with it on generated (input, base) pairs (correspondence).  The theorem
 for all inputs, that ada's *shortcut layers* compute what the Standard's plain definition
 computes, and structural facts of the Spec that make the result independent of where
 delimiters fall.
+
+The path state is more than compared: `Model/PathPrepared.lean` transcribes `helpers::parse_prepared_path` (the
+path builder of `ada::url`: `path_signature`, the trivial / fast / general code paths, `shorten_path`, the
+hash-table dot-segment tests, drive letters) and `path_builder_is_path_state` proves that, for every input, scheme
+type and path built so far, it produces the serialisation of `Spec.pathSegments` over the segments of the input
+(Lemmas/Path*.lean, 1400 lines).  The model is run against the real function on every check (checks/pathcorr.py).
 -/
 namespace AdaVerif.Props.C01
 open AdaVerif AdaVerif.Model AdaVerif.Lemmas AdaVerif.Spec
+
+/-- **the path builder is the Standard's path state**: `helpers::parse_prepared_path(input, type, path)` appends to the
+    serialised path exactly what the path state does with the segments of `input`, whichever of its three code
+    paths (trivial, fast, general) the signature selects.  `ty` is the scheme type of the C++ (6 = file, 1 = not
+    special), `segs` the path so far as a list of '/'-free segments. -/
+theorem path_builder_is_path_state (scheme : Bytes) (ty : Nat) (hty : PP.TyOf scheme ty) (input : Bytes)
+    (segs : List Bytes) (hn : PP.NoSlash segs) :
+    PathPrepared.parsePreparedPath input ty (FP.pathText segs) =
+      FP.pathText (pathSegments scheme (splitPath (isSpecialScheme scheme) input) segs) :=
+  PP.parsePreparedPath_eq scheme ty hty input segs hn
+
+/-- `helpers::shorten_path` on the serialised path is the Standard's "shorten a url's path" -/
+theorem shorten_path_is_shorten (scheme : Bytes) (ty : Nat) (hty : (ty == 6) = (scheme == bFile)) (segs : List Bytes)
+    (hn : PP.NoSlash segs) :
+    PathPrepared.shortenPath (FP.pathText segs) ty = FP.pathText (Spec.shortenPath scheme segs) :=
+  PP.shortenPath_eq scheme ty hty segs hn
+
+/-- the hash-table dot-segment tests are the Standard's definitions, for every byte string -/
+theorem dot_segment_tests (s : Bytes) :
+    PathPrepared.isDoubleDot s = Spec.isDoubleDot s ∧ PathPrepared.isSingleDot s = Spec.isSingleDot s :=
+  ⟨PP.doubleDot_eq s, PP.singleDot_eq s⟩
+
+/-- the hypotheses are satisfiable: the three scheme classes -/
+example : PP.TyOf bFile 6 := ⟨by decide, by decide⟩
+example : PP.TyOf bHttps 2 := ⟨by decide, by decide⟩
+example : PP.TyOf (ofStr "foo") 1 := ⟨by decide +kernel, by decide +kernel⟩
+/-- worked instances, one per code path (kernel-evaluated) -/
+example : PathPrepared.parsePreparedPath (ofStr "a/b.c/d") 2 (ofStr "/x") = ofStr "/x/a/b.c/d" := by decide +kernel
+example : PathPrepared.parsePreparedPath (ofStr "a/../b/./c/..") 2 (ofStr "/x") = ofStr "/x/b/" := by decide +kernel
+example : PathPrepared.parsePreparedPath (ofStr "C|/%2E%2e/a b") 6 [] = ofStr "/C:/a%20b" := by decide +kernel
 
 /-- T6: the perfect-hash `get_scheme_type` (hash on length and first byte, one packed 64-bit
     comparison against the **generated** key table) classifies every byte string exactly like a
